@@ -137,6 +137,7 @@ class Ctx:
         self.replay = replay
         self.t0 = time.time()
         self.scratch = tempfile.mkdtemp(prefix="verif_%s_" % prop_id)
+        shutil.rmtree(os.path.join(VERIF, "replay", prop_id), ignore_errors=True)   # replay files of THIS run only
         self.states = 0
         self.transitions = 0
         self.traces = 0
